@@ -189,7 +189,7 @@ fn anchors() -> Vec<i128> {
 
 fn time_strategy() -> impl Strategy<Value = T> {
     let lo = min_ns();
-    let hi = max_ns();
+    let _hi = max_ns();
     prop_oneof![
         // uniform inside the representable range
         4 => (0u64..=u64::MAX, 0u32..100).prop_map(move |(tick, sub)| T::from_ns(lo + tick as i128 * 100 + sub as i128).unwrap()),
